@@ -4,6 +4,7 @@ import (
 	"fmt"
 	"go/token"
 	"go/types"
+	"strings"
 
 	"golang.org/x/tools/go/ssa"
 )
@@ -251,4 +252,349 @@ func checkLatin1Decoders(c *Ctx, r *Report) {
 			checkLatin1Exact(c, r, f)
 		}
 	}
+}
+
+// ---------------------------------------------------------------- packed strings
+
+// xIter is one way round a decoder's character loop: the store into the result slice made
+// on it, and what is known at its back edge.
+type xIter struct {
+	Store *lfEvent
+	Meta  *lfLoopMeta
+	N     int // stores into made slices on this way round
+}
+
+// extractionPaths runs engine E2 in extraction mode on a string decoder and returns its
+// success paths with, per path, the ways round its loops.
+type xPath struct {
+	le    layoutEvents
+	iters []xIter
+	ret   []lfVal
+	cons  []Cons
+}
+
+func extractionPaths(c *Ctx, f *ssa.Function) (paths []xPath, elem map[Sym]lfElemRef, params []lfVal, why string) {
+	e := newLenflow(c, 4)
+	e.bits = true
+	e.extract = true
+	e.elemLoads = map[Sym]lfElemRef{}
+	e.onStore = func(st *lfState, kind, name, val string, pos token.Pos, b *bv) {
+		st.events = append(st.events, lfEvent{Kind: kind, Name: name, Val: val, Pos: pos, B: b})
+	}
+	e.onReturn = func(st *lfState, rets []lfVal) {
+		if len(rets) != 3 {
+			return
+		}
+		if ev, ok := rets[2].(vNilable); ok {
+			if ev.Nil == 2 {
+				return
+			}
+			if ev.Nil == 0 {
+				if isNil, has := st.decided[-ev.ID]; has && !isNil {
+					return
+				}
+			}
+		}
+		xp := xPath{ret: append([]lfVal{}, rets...), cons: append([]Cons{}, st.cons...)}
+		var cur *xIter
+		for i := range st.events {
+			ev := &st.events[i]
+			switch {
+			case ev.Kind == "loop:path":
+				xp.iters = append(xp.iters, xIter{Meta: ev.Loop})
+				cur = &xp.iters[len(xp.iters)-1]
+			case ev.Kind == "loop:wire" && strings.HasPrefix(ev.Org, "mk") && cur != nil:
+				cur.Store = ev
+				cur.N++
+			}
+		}
+		paths = append(paths, xp)
+	}
+	e.runEntry(f, func(fr *lfFrame, st *lfState) {
+		for _, p := range f.Params {
+			params = append(params, fr.env[p])
+		}
+		// domain: the character count is the 5-bit field of the type/length byte
+		if len(f.Params) == 2 {
+			if cv, ok := fr.env[f.Params[1]].(vInt); ok {
+				st.cons = append(st.cons, geq(cv.E, linConst(0)), leq(cv.E, linConst(31)))
+			}
+		}
+	})
+	if e.budgetHit {
+		why = "budget exhausted"
+	}
+	return paths, e.elemLoads, params, why
+}
+
+// checkPackedDecoders: the two packed ID-string encodings as statements about bytes, for every
+// length at once. One generalised iteration of the character loop, per residue of the
+// character index (mod 4 for 6-bit ASCII, mod 2 for BCD plus), stores into result[i] exactly
+// the specified function of the specified input bytes:
+//
+//	6-bit ASCII (IPMI v2.0 §43.15): four characters in three bytes, least significant bits first —
+//	  i = 4q:   0x20 + b[3q][5:0]              i = 4q+1: 0x20 + {b[3q+1][3:0], b[3q][7:6]}
+//	  i = 4q+2: 0x20 + {b[3q+2][1:0], b[3q+1][7:4]}   i = 4q+3: 0x20 + b[3q+2][7:2]
+//	BCD plus: two characters per byte, high nibble first — i = 2q: table[b[q][7:4]], i = 2q+1: table[b[q][3:0]]
+//
+// the loop runs i = 0, 1, … up to c, the result is the string of that slice of length c, and
+// the bytes consumed are ⌈3c/4⌉ resp. ⌈c/2⌉. Index arithmetic (floor divisions, float idioms)
+// is decided by entailment in E1's constraint store; bit extraction by E2's bit vectors.
+var theCtx *Ctx
+
+func checkPackedDecoders(c *Ctx, r *Report) {
+	theCtx = c
+	r.Rule("packed-string-extraction", "for every character index i, the packed 6-bit ASCII and BCD-plus decoders store into result[i] the specified bits of the specified input bytes (0x20 + 6-bit code from bytes 3⌊i/4⌋…; table[nibble of byte ⌊i/2⌋], high nibble first), for i = 0 … c−1, return that string and consume ⌈3c/4⌉ resp. ⌈c/2⌉ bytes", 2)
+	got, g := stringDecoderTable(c)
+	if g == nil {
+		r.Lost("ipmi string encoding decoder table")
+		return
+	}
+	type spec struct {
+		enc  int64
+		name string
+		mod  int64
+	}
+	for _, sp := range []spec{{2, "packed 6-bit ASCII", 4}, {1, "BCD plus", 2}} {
+		f := got[sp.enc]
+		if f == nil {
+			r.Lost(sp.name + " decoder")
+			continue
+		}
+		name := c.FnName(f)
+		r.Fn(name)
+		key := name + "|" + sp.name + " extraction"
+		paths, elem, params, why := extractionPaths(c, f)
+		if why != "" || len(params) != 2 {
+			r.Unk(key, f.Pos(), "extraction incomplete: "+why)
+			continue
+		}
+		cv, ok := params[1].(vInt)
+		if !ok {
+			r.Unk(key, f.Pos(), "character count is not an integer parameter")
+			continue
+		}
+		bad := ""
+		nPaths := 0
+		for _, xp := range paths {
+			if w := judgePackedPath(c, sp.mod, xp, elem, cv.E); w != "" {
+				bad = w
+			}
+			nPaths++
+		}
+		if nPaths == 0 && bad == "" {
+			bad = "no success path"
+		}
+		r.Check(bad == "", key, f.Pos(), fmt.Sprintf("%d success paths, every residue of the character index decided", nPaths), "the "+sp.name+" decoder does not extract the specified bits: "+bad)
+	}
+}
+
+func judgePackedPath(c *Ctx, mod int64, xp xPath, elem map[Sym]lfElemRef, cLin Lin) string {
+	eq := func(cons []Cons, a, b Lin) bool {
+		return entails(cons, geq(a, b)) && entails(cons, leq(a, b))
+	}
+	// result: the string of a made slice of length c; consumed bytes
+	sv, ok := xp.ret[0].(vSlice)
+	if len(xp.iters) == 0 {
+		// no loop on this path: only legitimate when c ≤ 0 is known
+		if entails(xp.cons, leq(cLin, linConst(0))) {
+			return ""
+		}
+		return "a success path produces the string without a character loop"
+	}
+	if !ok || sv.Org == nil || !strings.HasPrefix(sv.Org.Name, "mk") {
+		return "the string returned is not the conversion of the slice the loop fills"
+	}
+	n, isInt := xp.ret[1].(vInt)
+	if !isInt {
+		return "bytes consumed is not an integer"
+	}
+	// consumed = ⌈(8−mod)… : packed6 ⌈3c/4⌉, bcd ⌈c/2⌉  — with c = mod·Q + R
+	{
+		Q, R := linSym(newAnonSym()), linSym(newAnonSym())
+		cons := append(append([]Cons{}, xp.cons...), geq(Q, linConst(0)), geq(R, linConst(0)), leq(R, linConst(mod-1)), geq(cLin, Q.scale(mod).add(R, 1)), leq(cLin, Q.scale(mod).add(R, 1)))
+		okN := false
+		// ⌈3R/4⌉ = R for R in 0..3; ⌈R/2⌉ = R for R in 0..1
+		want := Q.scale(mod-1).add(R, 1)
+		if mod == 2 {
+			want = Q.add(R, 1)
+		}
+		if eq(cons, n.E, want) {
+			okN = true
+		}
+		if !okN {
+			return "the number of bytes consumed is not the packed length of c characters"
+		}
+	}
+	seen := map[int64]bool{}
+	for _, it := range xp.iters {
+		if it.Meta == nil {
+			continue
+		}
+		if it.N != 1 || it.Store == nil || it.Store.Org != sv.Org.Name {
+			return "a way round the loop does not store exactly one character into the result"
+		}
+		// the loop variable: stride 1 from 0, and the store's index is it
+		var iSym *Sym
+		for _, sy := range it.Meta.Syms {
+			if it.Meta.Stride[sy] == 1 {
+				if ent, has := it.Meta.Entry[sy]; has {
+					if k, isK := ent.isConst(); isK && k == 0 {
+						s := sy
+						iSym = &s
+					}
+				}
+			}
+		}
+		if iSym == nil {
+			return "no character index running 0, 1, 2, …"
+		}
+		i := linSym(*iSym)
+		if it.Store.Idx == nil || !eq(it.Meta.Cons, *it.Store.Idx, i) {
+			return "the character is not stored at the character index"
+		}
+		if !entails(it.Meta.Cons, leq(i, cLin.addConst(-1))) {
+			return "the loop body runs for an index ≥ c"
+		}
+		// the exit of the loop on this path: i ≥ c
+		if !entails(xp.cons, geq(i, cLin)) {
+			return "the path leaves the loop before the index reaches c"
+		}
+		// residue of this way round
+		hit := false
+		for rr := int64(0); rr < mod; rr++ {
+			Q := linSym(newAnonSym())
+			cons := append(append([]Cons{}, it.Meta.Cons...), geq(Q, linConst(0)), geq(i, Q.scale(mod).addConst(rr)), leq(i, Q.scale(mod).addConst(rr)))
+			if infeasibleWith(it.Meta.Cons, cons[len(it.Meta.Cons):]...) {
+				continue
+			}
+			hit = true
+			seen[rr] = true
+			if w := judgePackedValue(mod, rr, it.Store.B, elem, cons, Q); w != "" {
+				return fmt.Sprintf("character index ≡ %d (mod %d): %s", rr, mod, w)
+			}
+		}
+		if !hit {
+			return "a way round the loop is infeasible for every residue"
+		}
+	}
+	for rr := int64(0); rr < mod; rr++ {
+		if !seen[rr] {
+			return fmt.Sprintf("no iteration handles character indices ≡ %d (mod %d)", rr, mod)
+		}
+	}
+	return ""
+}
+
+var anonSymCounter = 1 << 28
+
+func newAnonSym() Sym { anonSymCounter++; return Sym(anonSymCounter) }
+
+// judgePackedValue compares the stored bit vector with the specification for residue rr.
+func judgePackedValue(mod, rr int64, got *bv, elem map[Sym]lfElemRef, cons []Cons, Q Lin) string {
+	if got == nil {
+		return "the stored value is not a bit function of the input"
+	}
+	eq := func(a, b Lin) bool { return entails(cons, geq(a, b)) && entails(cons, leq(a, b)) }
+	// role → expected byte index
+	role := func(k int64) Lin {
+		if mod == 4 {
+			return Q.scale(3).addConst(k)
+		}
+		return Q
+	}
+	srcOK := func(b bvBit, wantRole int64, wantBit int) bool {
+		if !strings.HasPrefix(b.Src, "ld") || b.Idx != wantBit {
+			return false
+		}
+		var id int
+		if _, err := fmt.Sscanf(b.Src, "ld%d", &id); err != nil {
+			return false
+		}
+		ref, has := elem[Sym(id)]
+		if !has || ref.Org != "d" {
+			return false
+		}
+		return eq(ref.Idx, role(wantRole))
+	}
+	type wbit struct {
+		role int64
+		bit  int
+	}
+	var code []wbit // LSB first
+	if mod == 4 {
+		switch rr {
+		case 0:
+			for j := 0; j < 6; j++ {
+				code = append(code, wbit{0, j})
+			}
+		case 1:
+			code = []wbit{{0, 6}, {0, 7}, {1, 0}, {1, 1}, {1, 2}, {1, 3}}
+		case 2:
+			code = []wbit{{1, 4}, {1, 5}, {1, 6}, {1, 7}, {2, 0}, {2, 1}}
+		case 3:
+			for j := 2; j < 8; j++ {
+				code = append(code, wbit{2, j})
+			}
+		}
+		// expected = code + 0x20 over 8 bits, zero-extended: computed with placeholder sources
+		ph := &bv{Bits: make([]bvBit, 8)}
+		for j := 0; j < 8; j++ {
+			if j < 6 {
+				ph.Bits[j] = bvBit{K: 's', Src: fmt.Sprintf("w%d", code[j].role), Idx: code[j].bit}
+			} else {
+				ph.Bits[j] = bvBit{K: '0'}
+			}
+		}
+		want := bvAddSub(ph, bvConst(0x20, 8), 8, false)
+		if want == nil {
+			return "internal: specification vector not expressible"
+		}
+		if got.Tag != "" {
+			return "the stored value is " + got.String() + ", want 0x20 + the 6-bit code"
+		}
+		g := got.resize(32, false)
+		for j := 0; j < 32; j++ {
+			wb := bvBit{K: '0'}
+			if j < 8 {
+				wb = want.Bits[j]
+			}
+			gb := g.Bits[j]
+			switch wb.K {
+			case '0', '1':
+				if gb.K != wb.K {
+					return fmt.Sprintf("bit %d of the character is %s, want constant %c", j, (&bv{Bits: []bvBit{gb}}).String(), wb.K)
+				}
+			case 's', 'n':
+				var rl int64
+				fmt.Sscanf(wb.Src, "w%d", &rl)
+				if gb.K != wb.K || !srcOK(gb, rl, wb.Idx) {
+					return fmt.Sprintf("bit %d of the character is %s, want bit %d of byte 3⌊i/4⌋+%d", j, (&bv{Bits: []bvBit{gb}}).String(), wb.Idx, rl)
+				}
+			}
+		}
+		return ""
+	}
+	// BCD plus: table[nibble]
+	if _, tg := newInitReader(theCtx).globalByType("pkg/ipmi", "bcdPlusRunes", "[16]rune"); tg == nil || got.Tag != "tbl:"+tg.Name() {
+		return "the stored value is " + got.String() + ", want a read of the BCD-plus character table"
+	}
+	if !strings.HasPrefix(got.Tag, "tbl:") || len(got.Args) != 1 || got.Args[0] == nil || got.Args[0].Tag != "" {
+		return "the stored value is " + got.String() + ", want a read of the BCD-plus character table"
+	}
+	idx := got.Args[0]
+	lo := 4
+	if rr == 1 {
+		lo = 0
+	}
+	for j, b := range idx.Bits {
+		if j < 4 {
+			if b.K != 's' || !srcOK(b, 0, lo+j) {
+				return fmt.Sprintf("table index bit %d is %s, want bit %d of byte ⌊i/2⌋", j, (&bv{Bits: []bvBit{b}}).String(), lo+j)
+			}
+		} else if b.K != '0' {
+			return "the table index is wider than a nibble"
+		}
+	}
+	return ""
 }
